@@ -83,7 +83,7 @@ var profiles = map[string]*Profile{
 		W:         map[string]int{"xfer": 4, "ktx": 4, "race": 10, "balrace": 6, "selrace": 4, "xfer-bad": 3, "ktx-two": 3, "ktx-old": 2, "mine": 3, "foreign": 3, "fork": 2, "walk": 2, "sync": 2},
 		EndChecks: []string{"sync", "obs"}},
 	"C17": {Name: "finality", Steps: 34, Fee: []bool{false}, Windows: []int64{1, 2, 3, 0},
-		W:         map[string]int{"xfer": 2, "ktx": 2, "mine": 6, "foreign": 5, "fork": 7, "walk": 6, "sync": 3, "reopen": 2, "badblock": 2},
+		W:         map[string]int{"xfer": 2, "ktx": 2, "mine": 6, "foreign": 5, "fork": 7, "walk": 6, "sync": 3, "reopen": 2, "badblock": 2, "truncate": 2},
 		EndChecks: []string{"sync", "obs"}},
 	"C18": {Name: "snapshots", Steps: 34, Fee: []bool{false}, Windows: []int64{0},
 		W:         map[string]int{"ktx": 12, "mine": 6, "foreign": 4, "fork": 3, "walk": 2, "sync": 2, "snap": 3, "xfer": 1},
